@@ -658,12 +658,16 @@ def rule_kind_pgm(ctx, units=None):
                         ok = bool(k) and k != kinds.START and k[0] == 'LAST_LE' and k[1] == KEY
                         st_ = OK if ok else (UNDECIDED if k is None else VIOLATED)
                         why_ = f"`{fmt_term(f.term(w, inline=False))[:90]}` gives {_kind_txt(k)}"
-                        if k == kinds.START and scanned_ok:
+                        if k == kinds.START and not scanned_ok:
+                            scanned_ok_w = _scanned_after(f, w, vid, KEY)
+                        else:
+                            scanned_ok_w = scanned_ok
+                        if k == kinds.START and scanned_ok_w:
                             # the cursor itself is set to the window start and then advanced by the forward scan (no separate `lo`)
                             st_, why_ = OK, why_ + '; the cursor is then advanced by the forward scan to LAST_LE(key)'
                         obs.append(Ob('KIND', f, w, 'segment chosen at each level is LAST_LE(key): the rightmost segment with key <= the sought key',
                                       why_, st_, arm='linear' if rt[0] == 'local' else 'binary'))
-                    elif nd['c'] in ('UnaryOperator', 'CXXOperatorCallExpr') and nd.get('op') == '++' and scanned_ok:
+                    elif nd['c'] in ('UnaryOperator', 'CXXOperatorCallExpr') and nd.get('op') == '++' and (scanned_ok or _scan_increment(f, w, vid, KEY)):
                         continue        # the increment of the forward scan on the cursor itself
                     else:
                         obs.append(Ob('KIND', f, w, 'cursor only assigned from routing results', f"cursor modified by `{fmt_term(f.term(w, inline=False))[:80]}`",
@@ -674,6 +678,68 @@ def rule_kind_pgm(ctx, units=None):
                 ok = bool(k) and k[0] == 'LAST_LE' and k[1] == KEY
                 obs.append(Ob('KIND', f, r, 'LAST_LE(key) over the last level', _kind_txt(k), OK if ok else (UNDECIDED if k is None else VIOLATED), arm='one-level'))
     return obs
+
+
+def _scan_blocks(f, vid):
+    """CFG blocks whose condition is the forward scan test `next(X)->key <= K` on the cursor"""
+    g = graph(f)
+    out = {}
+    for b in g.reach:
+        c = g.cond(b)
+        sc = kinds._scan_cond(f, c) if c else None
+        if sc and sc[0][2] == vid:
+            out[b] = (c, sc[1])
+    return out
+
+
+def _scan_increment(f, w, vid, KEY):
+    """the increment w of the cursor is the body of a forward scan on it: it is reached only through the true edge of the
+    scan test and leads back to it"""
+    g = graph(f)
+    pos = f.block_of(w)
+    if not pos:
+        return False
+    sb_ = _scan_blocks(f, vid)
+    for b, (c, key) in sb_.items():
+        if key != KEY:
+            continue
+        t = g.succ[b][0] if g.succ[b] else None
+        if t is None:
+            continue
+        # the body of the loop: blocks between the true edge and the way back to the test
+        body = g.reachable_from(t, blocked={b}) | {t}
+        if pos[0] in body and b in {s_ for x in body for s_ in g.succ[x] if s_ is not None}:
+            return True
+    return False
+
+
+def _scanned_after(f, w, vid, KEY):
+    """the cursor set to the window start at w is advanced by a forward scan before anything else reads it: interpreting only
+    what follows w, every read of the cursor outside the scan (test and increment) finds it LAST_LE(key)"""
+    sb2 = kinds.track(f, {vid}, seed=(w, {vid: kinds.START}))
+    scans = _scan_blocks(f, vid)
+    scan_conds = set()
+    for b, (c, key) in scans.items():
+        scan_conds |= set(f.walk(c))
+    n = 0
+    for i in f.all_ids():
+        nd = f.n(i)
+        if nd['c'] != 'DeclRefExpr' or nd.get('d') != vid or i in scan_conds:
+            continue
+        if not sb2.visited(i):
+            continue
+        p_ = f.sparent(i)
+        pn = f.n(p_) if p_ else None
+        if pn and pn.get('op') == '++' and _scan_increment(f, p_, vid, KEY):
+            continue
+        if pn and ((pn['c'] == 'BinaryOperator' and pn.get('op') == '=' and f.strip(pn['ch'][0]) == i) or
+                   (pn['c'] == 'CXXOperatorCallExpr' and pn.get('op') == '=' and pn.get('args') and f.strip(pn['args'][0]) == i)):
+            continue        # overwritten: not a read
+        k = sb2(i, vid)
+        if not (k and k != kinds.START and k[0] == 'LAST_LE' and k[1] == KEY):
+            return False
+        n += 1
+    return n > 0
 
 
 def fn_writes(fn, var_id):
@@ -936,8 +1002,18 @@ def rule_window_form(ctx, which, units=None):
             if not offl:
                 continue
             posv = offl[0]
+            pty = f.unit.base_type(f.defs.get(posv[2], {}).get('t')) if f.defs.get(posv[2], {}).get('t') else None
+            if pty is not None and pty.get('k') not in ('int', None):
+                continue        # the offset is read through an iterator / pointer (`segments.begin() + *level_offset`): a level start, not a window
             # role: is this variable a search start (first arg of upper_bound / scanned) or a search end (second arg)?
             role = None
+            same = {vid}
+            for i_ in f.all_ids():
+                nd_ = f.n(i_)
+                if ((nd_['c'] == 'BinaryOperator' and nd_.get('op') == '=') or (nd_['c'] == 'CXXOperatorCallExpr' and nd_.get('op') == '=' and len(nd_.get('args', [])) == 2)) and reachable(f, i_):
+                    l_, r_ = (nd_['ch'][0], nd_['ch'][1]) if nd_['c'] == 'BinaryOperator' else (nd_['args'][0], nd_['args'][1])
+                    if f.var_of(r_) == vid and f.var_of(l_) is not None and not f.n(f.strip(r_))['c'] == 'UnaryOperator':
+                        same.add(f.var_of(l_))      # `it = lo`: the cursor scanned from the window start
             for c in f.calls(pred=lambda nd: nd.get('ct') in kinds.UPPER + kinds.LOWER):
                 if not reachable(f, c):
                     continue
@@ -949,7 +1025,7 @@ def rule_window_form(ctx, which, units=None):
             for b in g.reach:
                 c = g.cond(b)
                 sc = kinds._scan_cond(f, c) if c else None
-                if sc and sc[0][2] == vid:
+                if sc and sc[0][2] in same:
                     role = role or 'lo'
             if role is None:
                 continue
@@ -1043,6 +1119,14 @@ def _level_index_symbol(t):
     if len(pos) != 1 or len(neg) != 1:
         return None
     p, n = _strip_cast(pos[0]), _strip_cast(neg[0])
+    if p[0] == 'deref' and n[0] == 'deref':
+        # the levels walked with an iterator I into levels_offsets: *next(I) - *I - 1
+        a, b = _strip_cast(n[1]), _strip_cast(p[1])
+        if b[0] == 'call' and b[1] == 'std::next' and b[2] and _strip_cast(b[2][0]) == a and (len(b[2]) == 1 or b[2][1] == ('lit', 1)):
+            return a
+        if b[0] == 'op' and len(b) == 4 and b[1] == '+' and _strip_cast(b[2]) == a and b[3] == ('lit', 1):
+            return a
+        return None
     if p[0] == 'index' and n[0] == 'index' and p[1] == L and n[1] == L:
         a, b = _strip_cast(n[2]), _strip_cast(p[2])
         if b[0] == 'op' and b[1] == '+' and _strip_cast(b[2]) == a and b[3] == ('lit', 1):
